@@ -25,17 +25,20 @@ def expected(prog, env):
 
 
 def compare(env, r, exp, viol, tag=""):
-    if env.outcome != exp:
-        viol.append(("C01.value" + tag, "root outcome %r, sequential evaluation gives %r" % (env.outcome, exp)))
-        return
+    # per-task transcripts first (they name the task and the value that differs); the root outcome
+    # digests every transcript below it
     for tid, got in r.trans.items():
         rec = env.recs.get(tid)
         if rec is None or not rec.started:
-            viol.append(("C01.value" + tag, "task %r is evaluated by the sequential reference but never ran" % (tid,)))
+            if env.outcome[0] != "escaped":
+                viol.append(("C01.value" + tag, "task %r is evaluated by the sequential reference but never ran (root outcome %r)" % (tid, env.outcome)))
+                return
+            continue
+        if rec.got != got and (rec.done or env.outcome[0] != "escaped"):
+            viol.append(("C01.value" + tag, "task %r observed %r, sequential evaluation gives %r" % (tid, rec.got, got)))
             return
-        if rec.got != got:
-            viol.append(("C01.transcript" + tag, "task %r observed %r, sequential evaluation gives %r" % (tid, rec.got, got)))
-            return
+    if env.outcome != exp:
+        viol.append(("C01.value" + tag, "root outcome %r, sequential evaluation gives %r" % (env.outcome, exp)))
 
 
 def check(prog, ctx):
@@ -77,4 +80,4 @@ def check(prog, ctx):
     return viol
 
 
-SUBS = [Sub("programs", check, strategy=strategy, reduce=reduce.candidates, examples={"quick": 1200, "thorough": 60000})]
+SUBS = [Sub("programs", check, strategy=strategy, reduce=reduce.candidates, examples={"quick": 6000, "thorough": 200000})]
